@@ -5,5 +5,5 @@ THEOREMS = [P + n for n in (
     "buffer_push_self_alias_safe", "buffer_blit_self_alias_safe",
     "join_split", "replaceAll_self", "replaceAll_via_find", "find_least", "take_drop", "partition_concat", "trim_edges",
     "reverse_involutive", "prefix_checkset", "insert_remove",
-    "range_spec", "range_ceilDiv_spec", "kmp_eq_naive", "kmp_table_spec", "sort_perm_sorted", "sort_perm_any_comparator", "partition_scan_left", "partition_step",
+    "format_laws", "range_spec", "range_ceilDiv_spec", "kmp_eq_naive", "kmp_table_spec", "sort_perm_sorted", "sort_perm_any_comparator", "partition_scan_left", "partition_step",
 )]
